@@ -153,6 +153,41 @@ def run_tlc(scratch, tla, cfg, *, simulate=None, depth=None, seed=0, workers=Non
     return res
 
 
+def coverage_check(scratch, tla, cfg, actions, tag="cov", timeout=1200, cfg_subst=None):
+    """Thorough tier: run the configuration once more without behaviour emission but with
+    -coverage 1 and require every named action to have been taken (vacuity guard)."""
+    text = open(os.path.join(SPEC, cfg)).read()
+    subst = dict(cfg_subst or {})
+    for line in text.splitlines():
+        if line.startswith("ACTION_CONSTRAINT"):
+            subst[line + "\n"] = ""
+    r = run_tlc(scratch, tla, cfg, tag=tag, timeout=timeout, coverage=True, cfg_subst=subst)
+    require_tlc_ok(r, "coverage run of " + cfg)
+    dead = [a for a in actions if r["coverage"].get(a, None) == 0]
+    missing = [a for a in actions if a not in r["coverage"]]
+    if dead:
+        raise Broken("actions never taken in %s: %s" % (cfg, dead))
+    return {"actions_covered": {a: r["coverage"].get(a) for a in actions if a in r["coverage"]}, "not_reported": missing}
+
+
+def op_histogram(traces_path, required, what):
+    """Vacuity guard on emitted behaviours: how often each operation is the LAST step of a
+    behaviour (= a transition of the explored state graph). A required operation that never
+    occurs makes the check broken, not passing."""
+    counts = {}
+    rx = re.compile(r'"op":"([A-Za-z]+)"')
+    with open(traces_path) as f:
+        for line in f:
+            k = line.rfind('"exp":')       # the trailing expectation of the whole behaviour
+            ops = rx.findall(line[:k] if k > 0 else line)
+            if ops:
+                counts[ops[-1]] = counts.get(ops[-1], 0) + 1
+    dead = [a for a in required if counts.get(a, 0) == 0]
+    if dead:
+        raise Broken("%s: operations never taken in the explored state graph: %s" % (what, dead))
+    return counts
+
+
 def require_tlc_ok(res, what):
     if not res["ok"]:
         raise Broken("%s: TLC did not finish cleanly: %s\n%s" % (what, res["errors"][:5], "\n".join(res["tail"][-25:])))
